@@ -46,6 +46,10 @@ pub enum Field {
     SizedOptional { width: u8, be: bool, head: Vec<Shape>, tail: Option<Shape>, tail_template: Shape },
     /// flag byte: when flag & mask != 0 the following field is skipped
     Skip { flag: u8, mask: u8, target: Shape },
+    /// chained skips: flag1 may skip the second flag field; the second flag (when present) may skip the target
+    SkipChain { flag1: u8, mask1: u8, flag2: u8, mask2: u8, target: Shape },
+    /// a flag whose SkipField names itself: it has already been processed when the option is seen, so it is always present
+    SelfSkip { flag: u8 },
 }
 
 #[derive(Debug, Clone, PartialEq, Eq)]
@@ -115,6 +119,19 @@ fn ser(s: &Shape, out: &mut Vec<u8>) {
                             ser(target, out);
                         }
                     }
+                    Field::SkipChain { flag1, mask1, flag2, mask2, target } => {
+                        out.push(*flag1);
+                        if flag1 & mask1 == 0 {
+                            out.push(*flag2);
+                            if flag2 & mask2 == 0 {
+                                ser(target, out);
+                            }
+                        } else {
+                            // the second flag is skipped as a whole: its own option is never consulted, the target stays
+                            ser(target, out);
+                        }
+                    }
+                    Field::SelfSkip { flag } => out.push(*flag),
                 }
             }
         }
@@ -141,6 +158,8 @@ fn blank(s: &Shape) -> Shape {
                     Field::SizedArray { width, be, elems } => Field::SizedArray { width: *width, be: *be, elems: elems.iter().take(1).map(blank).collect() },
                     Field::SizedOptional { width, be, head, tail_template, .. } => Field::SizedOptional { width: *width, be: *be, head: head.iter().map(blank).collect(), tail: Some(blank(tail_template)), tail_template: blank(tail_template) },
                     Field::Skip { mask, target, .. } => Field::Skip { flag: 0, mask: *mask, target: blank(target) },
+                    Field::SkipChain { mask1, mask2, target, .. } => Field::SkipChain { flag1: 0, mask1: *mask1, flag2: 0, mask2: *mask2, target: blank(target) },
+                    Field::SelfSkip { .. } => Field::SelfSkip { flag: 0 },
                 })
                 .collect(),
         ),
@@ -201,6 +220,21 @@ fn leaves_m(s: &Shape, out: &mut Vec<Leaf>, unread: bool) {
                             leaves_m(&blank(target), out, true)
                         }
                     }
+                    Field::SkipChain { flag1, mask1, flag2, mask2, target } => {
+                        out.push(Leaf::U8(*flag1));
+                        if flag1 & mask1 == 0 {
+                            out.push(Leaf::U8(*flag2));
+                            if flag2 & mask2 == 0 {
+                                leaves_m(target, out, unread)
+                            } else {
+                                leaves_m(&blank(target), out, true)
+                            }
+                        } else {
+                            out.push(Leaf::U8(0));
+                            leaves_m(target, out, unread)
+                        }
+                    }
+                    Field::SelfSkip { flag } => out.push(Leaf::U8(*flag)),
                 }
             }
         }
@@ -307,6 +341,18 @@ fn build_component(fs: &[Field], writing: bool) -> Component {
                 let t: Option<Boxed> = tail.as_ref().map(|t| Boxed(build(t, writing)));
                 inner.insert("tail".to_string(), Box::new(t));
                 c.insert(target, Box::new(inner));
+            }
+            Field::SkipChain { flag1, mask1, flag2, mask2, target } => {
+                let (n2, n3) = (format!("f{}b", i), format!("f{}c", i));
+                let (m1, t1) = (*mask1, n2.clone());
+                c.insert(name.clone(), Box::new(DynOption::new(*flag1, move |v: &u8| if *v & m1 != 0 { MessageOption::SkipField(t1.clone()) } else { MessageOption::None })));
+                let (m2, t2) = (*mask2, n3.clone());
+                c.insert(n2, Box::new(DynOption::new(*flag2, move |v: &u8| if *v & m2 != 0 { MessageOption::SkipField(t2.clone()) } else { MessageOption::None })));
+                c.insert(n3, build(target, writing));
+            }
+            Field::SelfSkip { flag } => {
+                let me = name.clone();
+                c.insert(name.clone(), Box::new(DynOption::new(*flag, move |_v: &u8| MessageOption::SkipField(me.clone()))));
             }
             Field::Skip { flag, mask, target } => {
                 let tname = format!("f{}tgt", i);
@@ -427,7 +473,7 @@ fn min_len(s: &Shape) -> usize {
             .map(|f| match f {
                 Field::Plain(x) => min_len(x),
                 Field::SizedBlock { width, .. } | Field::SizedArray { width, .. } | Field::SizedOptional { width, .. } => *width as usize,
-                Field::Skip { .. } => 1,
+                Field::Skip { .. } | Field::SkipChain { .. } | Field::SelfSkip { .. } => 1,
             })
             .sum(),
     }
@@ -472,7 +518,7 @@ fn gen_shape(s: &mut Src, depth: usize) -> Shape {
 fn gen_field(s: &mut Src, depth: usize) -> Field {
     let width = s.pick(&[1u8, 2, 2, 4]);
     let be = s.bool();
-    match s.below(8) {
+    match s.below(9) {
         0 | 1 | 2 => Field::Plain(gen_shape(s, depth)),
         3 | 4 => {
             let n = if width == 1 { s.below(20) } else { s.below(300) };
@@ -496,6 +542,11 @@ fn gen_field(s: &mut Src, depth: usize) -> Field {
             let tail = if s.bool() { Some(revalue(&tmpl, s)) } else { None };
             Field::SizedOptional { width, be, head: (0..h).map(|_| gen_scalar(s)).collect(), tail, tail_template: tmpl }
         }
+        7 => match s.below(4) {
+            0 => Field::SkipChain { flag1: s.u8(), mask1: s.pick(&[0x01u8, 0x80, 0xFF]), flag2: s.u8(), mask2: s.pick(&[0x01u8, 0x02, 0xFF]), target: gen_shape(s, depth.min(1)) },
+            1 => Field::SelfSkip { flag: s.u8() },
+            _ => Field::Skip { flag: s.u8(), mask: s.pick(&[0x01u8, 0x20, 0x80, 0xFF]), target: gen_shape(s, depth.min(1)) },
+        },
         _ => Field::Skip { flag: s.u8(), mask: s.pick(&[0x01u8, 0x20, 0x80, 0xFF]), target: gen_shape(s, depth.min(1)) },
     }
 }
@@ -517,6 +568,8 @@ fn revalue(t: &Shape, s: &mut Src) -> Shape {
                         Field::SizedBlock { width: *width, be: *be, gap: gap.iter().map(|g| revalue(g, s)).collect(), data: s.fill(n) }
                     }
                     Field::Skip { mask, target, .. } => Field::Skip { flag: s.u8(), mask: *mask, target: revalue(target, s) },
+                    Field::SkipChain { mask1, mask2, target, .. } => Field::SkipChain { flag1: s.u8(), mask1: *mask1, flag2: s.u8(), mask2: *mask2, target: revalue(target, s) },
+                    Field::SelfSkip { .. } => Field::SelfSkip { flag: s.u8() },
                     other => other.clone(),
                 })
                 .collect(),
